@@ -245,6 +245,47 @@ def fuse_elems(t: T) -> T:
     return cur
 
 
+def extra_defaults(f, known: Iterable[str]) -> Optional[Dict[str, T]]:
+    """constant defaults of the parameters a function has gained beyond the
+    ones a rule knows: the property quantifies over the documented call
+    forms, i.e. over the new optional parameters at their defaults.  None if
+    a new parameter has no constant default (the call forms changed)."""
+    import ast as _ast
+    known = list(known)
+    if f.params[:len(known)] != known:
+        return None
+    dflt = f.defaults()
+    out = {}
+    for p in f.params[len(known):] + list(f.kwonly):
+        d = dflt.get(p)
+        if not isinstance(d, _ast.Constant):
+            return None
+        out[p] = const(d.value)
+    return out
+
+
+def step_norms(nrm: T, x: T) -> Optional[bool]:
+    """is `nrm` the array of consecutive step lengths |x_k - x_(k+1)| of the
+    n x m point array x?  True / False; None if nrm is not a row-norm at all.
+    Spellings: norm(x[:-1] - x[1:], axis=1) (either order) and
+    norm(np.diff(x, axis=0), axis=1)."""
+    if not is_call_to(nrm, "numpy.linalg.norm") or not nrm.args[1]:
+        return None
+    S1 = T("slice", const(1), tm.NONE, tm.NONE)
+    SM1 = T("slice", tm.NONE, const(-1), tm.NONE)
+    ax = dict(nrm.args[2]).get("axis")
+    d = nrm.args[1][0]
+    consecutive = False
+    if d.op == "binop" and d.args[0] == "Sub":
+        consecutive = {d.args[1], d.args[2]} == {tm.sub(x, SM1),
+                                                 tm.sub(x, S1)}
+    elif is_call_to(d, "numpy.diff") and d.args[1] and d.args[1][0] is x:
+        consecutive = tm.is_const(dict(d.args[2]).get("axis", const(-1)), 0) \
+            and (len(d.args[1]) == 1 or tm.is_const(d.args[1][1], 1))
+    return bool(consecutive and ax is not None and tm.is_const(ax) and
+                ax.args[1] in (1, -1))
+
+
 # ------------------------------------------------- de-vectorisation
 # A vectorised numpy expression and the comprehension it replaces denote the
 # same array.  `devectorise` rewrites the vectorised spellings evo-sized code
